@@ -9,7 +9,7 @@ Local Open Scope R_scope.
 
 (* invariant of every reachable state (any interleaving of tag_as, transform-appending calls, assignments, reads):
    every stored pair is affine with a two-sided inverse, and every tag position is at most the number of transforms *)
-Theorem C04_invariant_reachable : forall ops, Forall cm_op_ok ops -> cm_Inv (cm_final ROps ops (cm_init (F:=R))).
+Theorem C04_invariant_reachable : forall attrs pa ops, Forall cm_op_ok ops -> cm_Inv (cm_final ROps attrs pa ops (cm_init (F:=R))).
 Proof. exact cm_Inv_reachable. Qed.
 
 (* points at tag `a` (position i) read at tag `b` (position j): unchanged if i = j; the forward matrices of steps
@@ -45,20 +45,23 @@ Theorem C04_tags_round_trip : forall st pts a b q, cm_Inv st ->
   do_transform ROps st pts a b = Ok q -> do_transform ROps st q b a = Ok pts.
 Proof. exact do_transform_round_trip. Qed.
 
-(* KNOWN FINDING tag_shadows_attribute: a tag named like an attribute of the class (a method such as "flip", or
+(* KNOWN FINDING tag_shadows_attribute, for EVERY attribute list that contains the public method name "flip" (the list
+   is data read from the code on each run): a tag named like an attribute of the class (a method such as "flip", or
    "_points", "_transform", ...) is converted by do_transform but NOT by an attribute read: Python finds the attribute
    and never calls __getattr__.  The model mirrors it (attr_shadowed). *)
-Theorem C04_attribute_read_shadowed_refuted : exists (st : cm_state (F:=R)) tag pts n,
-  cm_points st = Some (tag, pts) /\ tag_lookup n (cm_tags st) <> None /\
-  snd (cm_step ROps st (CGetAttr n)) <> snd (cm_step ROps st (CDoTransform pts tag n)).
+Theorem C04_attribute_read_shadowed_refuted : forall attrs pa,
+  attr_shadowed attrs "flip"%string = true -> pa <> "flip"%string ->
+  exists (st : cm_state (F:=R)) tag pts,
+  cm_points st = Some (tag, pts) /\ tag_lookup "flip"%string (cm_tags st) <> None /\
+  snd (cm_step ROps attrs pa st (CGetAttr "flip"%string)) <> snd (cm_step ROps attrs pa st (CDoTransform pts tag "flip"%string)).
 Proof. exact get_shadowed_refuted. Qed.
 
 (* whatever is done afterwards (more transforms, new tag names, assignments, reads), a conversion between two
    existing tags that are not re-tagged stays the same *)
-Theorem C04_append_preserves_conversions : forall ops st pts a b, Forall cm_op_ok ops -> cm_Inv st ->
+Theorem C04_append_preserves_conversions : forall attrs pa ops st pts a b, Forall cm_op_ok ops -> cm_Inv st ->
   Forall (not_retag a) ops -> Forall (not_retag b) ops ->
   (exists r, do_transform ROps st pts a b = Ok r) ->
-  do_transform ROps (cm_final ROps ops st) pts a b = do_transform ROps st pts a b.
+  do_transform ROps (cm_final ROps attrs pa ops st) pts a b = do_transform ROps st pts a b.
 Proof. exact do_transform_preserved. Qed.
 
 
@@ -67,27 +70,27 @@ Proof. exact do_transform_preserved. Qed.
    ================================================================================================================ *)
 (* attribute reads (of names that are not attributes of the class) are do_transform from the tag the points were
    assigned at; assignment stores tag and points *)
-Theorem C04_attribute_protocol_partial : forall st tag pts n i,
-  (attr_shadowed n = false -> cm_points st = Some (tag, pts) ->
-   cm_step ROps st (CGetAttr n) = cm_step ROps st (CDoTransform pts tag n)) /\
+Theorem C04_attribute_protocol_partial : forall attrs pa st tag pts n i,
+  (attr_shadowed attrs n = false -> cm_points st = Some (tag, pts) ->
+   cm_step ROps attrs pa st (CGetAttr n) = cm_step ROps attrs pa st (CDoTransform pts tag n)) /\
   (tag_lookup n (cm_tags st) = Some i ->
-   cm_step ROps st (CSetAttr n pts) = (MkCM (cm_tags st) (Some (n, pts)) (cm_tr st), Ok OutNone)).
-Proof. intros st tag pts n i. exact (conj (get_is_do_transform st tag pts n) (set_known_tag st n i pts)). Qed.
+   cm_step ROps attrs pa st (CSetAttr n pts) = (MkCM (cm_tags st) (Some (n, pts)) (cm_tr st), Ok OutNone)).
+Proof. intros attrs pa st tag pts n i. exact (conj (get_is_do_transform attrs pa st tag pts n) (set_known_tag attrs pa st n i pts)). Qed.
 (* unknown tags are refused, state unchanged (validated by the correspondence and the oracle, not proved of the code).
    The third refusal (ValueError when reading before any assignment) is conditional: a name that is an attribute of
    the class is found by ordinary lookup and never raises (known finding tag_shadows_attribute). *)
-Theorem C04_unknown_tag_errors : forall st n pts a b,
-  (tag_lookup n (cm_tags st) = None -> cm_step ROps st (CSetAttr n pts) = (st, Raise AttributeError)) /\
+Theorem C04_unknown_tag_errors : forall attrs pa st n pts a b,
+  (tag_lookup n (cm_tags st) = None -> cm_step ROps attrs pa st (CSetAttr n pts) = (st, Raise AttributeError)) /\
   (tag_lookup a (cm_tags st) = None \/ tag_lookup b (cm_tags st) = None ->
-   cm_step ROps st (CDoTransform pts a b) = (st, Raise KeyError)) /\
-  (attr_shadowed n = false -> cm_points st = None -> cm_step ROps st (CGetAttr n) = (st, Raise ValueError)).
+   cm_step ROps attrs pa st (CDoTransform pts a b) = (st, Raise KeyError)) /\
+  (attr_shadowed attrs n = false -> cm_points st = None -> cm_step ROps attrs pa st (CGetAttr n) = (st, Raise ValueError)).
 Proof.
-  intros st n pts a b.
-  exact (conj (set_unknown_tag st n pts) (conj (do_transform_unknown_tag st pts a b) (get_before_set st n))).
+  intros attrs pa st n pts a b.
+  exact (conj (set_unknown_tag attrs pa st n pts) (conj (do_transform_unknown_tag attrs pa st pts a b) (get_before_set attrs pa st n))).
 Qed.
-Theorem C04_tag_as_records_length : forall st n,
-  tag_lookup n (cm_tags (fst (cm_step ROps st (CTagAs n)))) = Some (List.length (cm_tr st)) /\
-  cm_tr (fst (cm_step ROps st (CTagAs n))) = cm_tr st.
+Theorem C04_tag_as_records_length : forall attrs pa st n,
+  tag_lookup n (cm_tags (fst (cm_step ROps attrs pa st (CTagAs n)))) = Some (List.length (cm_tr st)) /\
+  cm_tr (fst (cm_step ROps attrs pa st (CTagAs n))) = cm_tr st.
 Proof. exact tag_as_records_length. Qed.
 (* re-tagging moves exactly that name *)
 Theorem C04_retag_moves_only_that_tag : forall n m i tags,
@@ -100,8 +103,10 @@ Example C04_ops_ok_inhabited :
                    CTagAs "scaled"%string; CSetAttr "source"%string [V3 1 1 1]; CGetAttr "scaled"%string].
 Proof. repeat constructor. Qed.
 
-Example C04_not_shadowed_inhabited : attr_shadowed "source"%string = false.
-Proof. reflexivity. Qed.
+Example C04_not_shadowed_inhabited :
+  attr_shadowed ["flip"; "tag_as"; "_points"]%string "source"%string = false /\
+  attr_shadowed ["flip"; "tag_as"; "_points"]%string "flip"%string = true.
+Proof. split; reflexivity. Qed.
 
 Definition C04_all := (C04_invariant_reachable, C04_tag_as_records_length, C04_do_transform_spec,
   C04_attribute_protocol_partial, C04_tags_path_independent, C04_tags_round_trip, C04_attribute_read_shadowed_refuted,
